@@ -484,7 +484,7 @@ pub fn rule_for(property: &str) -> String {
     "C37" => "scenario = generated chain indexed with an event receiver under a transparent schedule (commit intervals, update partition, reopen points, lag, transient prefetch errors); after every update the event stream so far is folded (locations, charms at creation, parents, etchings, mint counts and amounts, burned totals, per-outpoint balances with inputs cleared by the transaction each event names) and compared with the index; non-trivial = at least three events of at least two kinds; distinct by (schedule+config digest, final index digest)".into(),
     "C18" => "scenario = generated chain (inscriptions with parents, delegates, reinscriptions, runes) indexed under a transparent schedule; at the final and one intermediate quiescent point the real explorer router is driven in-process: every inscription on /inscription/<id|number> and /r/inscription, all pages of /r/children and /r/parents, /inscriptions/block/<h>, /sat/<n>, /r/sat/<n> and /r/sat/<n>/at/<k> for every k from -(n+1) to n, /output/<o> for every inscribed or runic output plus a sample, /blockheight; fields compared with stored entries, the reference model (value, address, spent, sat ranges, rune balances, sat location) and creation order; non-trivial = at least two inscriptions and ten requests; distinct by (schedule+config digest, final index digest)".into(),
     "C19" => "scenario = generated chain with arbitrary content-type bytes, encodings (none, valid br, invalid br, gzip), delegates to existing / missing / delegating / hidden inscriptions; server options {csp origin or none, decompress or not, hidden set biased to delegates}; every inscription on /content, /r/undelegated-content, /preview, /r/sat/<n>/at/<k>/content (k<0 and k>=0) with and without Accept-Encoding, plus one request to a list of other routes incl. 404s; checks: body, content type, encoding rule, CSP on every response, content CSP confined, hidden bodies never served, relative content never immutable; non-trivial = at least two inscriptions and ten requests; distinct by (schedule+config+server options digest, final index digest)".into(),
-    "C21" => "scenario = a wallet inventory built on chain (cardinals, inscriptions, runic outputs), then real `ord wallet batch` commands (separate-outputs, shared-output, same-sat; 1-4 inscriptions; 0-2 parents held by the wallet; optional postage, foreign destinations, delegate, metadata) run in-process; commit and reveal are mined in the same block or in consecutive blocks and indexed by the real indexer; reported ids, locations and destinations must be what the indexer assigns, the reveal must create exactly the reported ids, parents must return to wallet outputs, the commit must spend no inscribed or runic output; etchings inside batches are not driven; non-trivial = at least one batch was settled; distinct by (history+commands digest, final index digest)".into(),
+    "C21" => "scenario = a wallet inventory built on chain (cardinals, inscriptions incl. one behind cardinal sats, runic outputs), then real `ord wallet batch` commands (separate-outputs, shared-output, same-sat with sat / satpoint / reinscribe targets, satpoints; 1-4 inscriptions; 0-2 parents held by the wallet; optional postage, foreign destinations, delegate, metadata; in a third of the batches an etching with premine 0..21M, divisibility, spacers, optional terms, turbo) run in-process; while the wallet waits for the commitment to mature the simulated node mines a block every 1-3 polls; commit and reveal are mined in the same block or in consecutive blocks and indexed by the real indexer; reported ids, locations and destinations must be what the indexer assigns, the reveal must create exactly the reported ids, a targeted sat must carry them, parents must return to wallet outputs, the commit must spend no other inscribed or runic output, the named rune must exist with the requested premine / divisibility / terms and its premine must sit at the reported output; non-trivial = at least one batch was settled; distinct by (history+commands digest, final index digest)".into(),
     "C24" => "scenario = a wallet inventory built on chain (cardinals, outputs holding one inscription, an output holding two, an inscribed output that also holds runes) and outputs of a counterparty; then `ord wallet offer accept` run in-process on generated PSBTs: valid offers and offers deviating in one or two respects (second wallet input, several inscriptions, runes, no inscription, no wallet input, wrong --amount, wrong --inscription, unsigned counterparty input, pre-signed wallet input, payment elsewhere), foreign signatures in witness or script sig, wallet input at any position; the node's signing replies are faulted (foreign signature changed by walletprocesspsbt or finalizepsbt, moved to the script sig, extra or missing input). Every PSBT the wallet hands to the node for signing and every transaction it tries to broadcast is audited against the reference model and the PSBT as presented; non-trivial = at least one offer was audited; distinct by (history+commands digest, final index digest)".into(),
     "C22" => "scenario = a wallet inventory built on chain (cardinals, inscriptions, 1-3 runes etched with premines spread over several outputs, outputs holding several runes), then real `ord wallet send <decimal:rune>`, `burn <decimal:rune>` and `split` commands (amounts: per-mille of the balance, 1, the full balance, more than the balance, zero) run in-process against the simulated node and the in-process explorer; each broadcast transaction is mined, indexed by the real indexer and settled: recipient amounts, burned deltas, every other rune of the spent inputs back on a wallet output; zero requests must be rejected; non-trivial = at least one command succeeded and was settled; distinct by (history+commands digest, final index digest)".into(),
     "C23" => "scenario = same inventory plus an optional pre-locked output; node-funded commands (send bitcoin, mint, split, send and burn runes) against a node whose fundrawtransaction picks ANY unlocked wallet output and tries outputs that hold inscriptions or runes first; every input of every broadcast transaction is audited against the reference model: no inscribed output, no runic output unless it holds a rune that is the subject of the command; non-trivial = at least one command succeeded; distinct by (history+commands digest, final index digest)".into(),
